@@ -732,6 +732,9 @@ class FDE:
                 raise Unsupported('subscript store on %r' % (d,))
             d[k] = v
         elif isinstance(t, (ast.Tuple, ast.List)):
+            if isinstance(v, (tuple, list)) and len(v) != len(t.elts) and not any(isinstance(x, ast.Starred) for x in t.elts) \
+                    and not (isinstance(v, tuple) and v and isinstance(v[0], str) and v[0] in ('class', 'ext', 'kind', 'closure', 'unbound', 'partial')):
+                raise Raised('ValueError')       # too many / not enough values to unpack
             if not isinstance(v, (tuple, list)) or len(v) != len(t.elts):
                 raise Unsupported('unpack')
             for a, b in zip(t.elts, v):
@@ -1574,7 +1577,10 @@ class FDE:
                 if m == 'get':
                     return d.get(*args)
                 if m == 'pop':
-                    return d.pop(*args)
+                    try:
+                        return d.pop(*args)
+                    except KeyError:
+                        raise Raised('KeyError')
                 if m == 'setdefault':
                     return d.setdefault(*args)
                 if m == 'update':
